@@ -47,7 +47,7 @@ ASSUMPTIONS = [
     "2..255 that are not listed exist and are described by member 1 (type, access, default)",
     "indexes 0x1017 and 0x1400..0x1BFF are not generated (they carry heartbeat / PDO side effects)",
 ]
-BUDGET = {"quick": 50, "thorough": 420}
+BUDGET = {"quick": 150, "thorough": 420}
 
 NODE = 5
 RX, TX = 0x600 + NODE, 0x580 + NODE
